@@ -3,7 +3,9 @@
 A case is a *history* of programs evaluated one after the other in one process:
 
     {"kind": <family>, "progs": [{"runner": "I"|"C", "style": "N"|"L"|"D", "fns": [fnspec…], "expr": tree}, …],
-     "rel": None | "same"}            # "same": all programs must give the same outcome (call vs method syntax,
+     "rel": None | "same", "share_env": bool}
+                                      # "share_env": the programs are built from ONE Environment per runner class.  "bind": evaluate with a (unused) variable binding, which makes the runner clone
+                                      # its activation.  "same": all programs must give the same outcome (call vs method syntax,
                                       #          list vs dict binding)
     fnspec = {"key": CEL name, "pyname": __name__ or None, "ckind": mod|main|nested|lambda|obj|bound|partial|ev,
               "beh": [tokens]}
@@ -37,8 +39,9 @@ POOL_BOOL = ["p", "q"]
 POOL_LIST = ["mk"]
 SHADOW = ["size", "contains"]
 POOL = POOL_INT + POOL_BOOL + POOL_LIST + SHADOW + ["k"]
-CKINDS = ["mod", "main", "nested", "lambda", "obj", "bound", "partial", "ev"]
-NAMED_KINDS = ["mod", "main", "nested", "lambda", "obj", "bound", "ev"]      # can carry a __name__ for list style
+CKINDS = ["mod", "main", "nested", "lambda", "obj", "bound", "partial", "wraps", "ev"]
+NAMED_KINDS = ["mod", "main", "nested", "lambda", "obj", "bound", "ev"]      # can carry a chosen __name__ for list style
+WRAPS_NAME = "function_size"      # __name__ of a functools.wraps(celpy.evaluation.function_size) wrapper
 
 # --------------------------------------------------------------------------------------------------
 # real callables of every kind
@@ -188,6 +191,13 @@ def _make_callable(spec: Dict[str, Any], slot: int):
         return getattr(cls(), meth.__name__)
     if ckind == "partial":
         return functools.partial(lambda tag, *a: body(a), "tag")
+    if ckind == "wraps":
+        import celpy.evaluation
+
+        @functools.wraps(celpy.evaluation.function_size)
+        def wrapper(*a):
+            return body(a)
+        return wrapper
     raise RuntimeError(ckind)
 
 
@@ -204,6 +214,8 @@ def spec_pyname(spec) -> Optional[str]:
         return pn
     if ck == "bound":
         return pn or "meth"
+    if ck == "wraps":
+        return WRAPS_NAME
     return None
 
 
@@ -692,7 +704,7 @@ def specs_for(rng: random.Random, table, style: str, kinds: List[str]) -> List[D
     rng.shuffle(spare)
     for name, beh in table.items():
         ck = rng.choice(kinds)
-        if style == "L" and ck == "partial":
+        if style == "L" and ck in ("partial", "wraps"):
             ck = "nested"
         spec = {"key": name, "ckind": ck, "beh": beh}
         if style == "L" or rng.random() < 0.3:
@@ -705,8 +717,8 @@ def specs_for(rng: random.Random, table, style: str, kinds: List[str]) -> List[D
     return out
 
 
-def both_runners(kind, style, fns, expr, rel=None):
-    return [{"kind": kind, "progs": [{"runner": r, "style": style, "fns": fns, "expr": expr}], "rel": rel} for r in ("I", "C")]
+def both_runners(kind, style, fns, expr, rel=None, bind=False):
+    return [{"kind": kind, "progs": [{"runner": r, "style": style, "fns": fns, "expr": expr, "bind": bind}], "rel": rel} for r in ("I", "C")]
 
 
 NODE1 = {"or": 2, "and": 2, "not": 1, "cond": 3, "add": 2, "lt": 2, "all": 2, "exists": 2, "map": 2}
@@ -741,7 +753,7 @@ def shape_cases() -> List[Dict[str, Any]]:
     for bname, beh in behs.items():
         for ck in CKINDS:
             for style in ("L", "D"):
-                if style == "L" and ck == "partial":
+                if style == "L" and ck in ("partial", "wraps"):
                     continue
                 fns = [{"key": "f", "ckind": ck, "beh": beh, "pyname": "f"} if ck in NAMED_KINDS else {"key": "f", "ckind": ck, "beh": beh},
                        {"key": "g", "ckind": "nested", "beh": ["sum", 7], "pyname": "g"},
@@ -764,8 +776,8 @@ def shape_cases() -> List[Dict[str, Any]]:
                 if bname == "ok":
                     shapes += [["map", L(1, 2, 3), ["call", "f", [["v", 0]]]], ["map", L(4, 5), ["meth", "f", ["v", 0], [I(1)]]],
                                ["all", L(1, 2), ["exists", L(7), ["lt", ["call", "f", [["v", 0], ["v", 1]]], I(0)]]]]
-                for e in shapes:
-                    cases += both_runners("shape", style, fns, e)
+                for i, e in enumerate(shapes):
+                    cases += both_runners("shape", style, fns, e, bind=(i + len(ck)) % 2 == 0)
     return cases
 
 
@@ -809,24 +821,25 @@ class C14(Prop):
             e = g.bool_(rng.randint(1, 4), 0) if rng.random() < 0.5 else g.int_(rng.randint(1, 4), 0)
             r = rng.random()
             if r < 0.55:
-                cases += both_runners("random", style, fns, e)
+                cases += both_runners("random", style, fns, e, bind=rng.random() < 0.5)
             elif r < 0.75:      # function syntax vs method syntax
                 for rn in ("I", "C"):
                     cases.append({"kind": "syntax", "rel": "same", "progs": [
                         {"runner": rn, "style": style, "fns": fns, "expr": to_function(e)},
                         {"runner": rn, "style": style, "fns": fns, "expr": to_method(e)}]})
             elif r < 0.9:       # list vs dict
-                fl = [dict(s, pyname=s["key"], ckind=(s["ckind"] if s["ckind"] != "partial" else "lambda")) for s in fns]
+                fl = [dict(s, pyname=s["key"], ckind=(s["ckind"] if s["ckind"] not in ("partial", "wraps") else "lambda")) for s in fns]
                 for rn in ("I", "C"):
                     cases.append({"kind": "binding", "rel": "same", "progs": [
                         {"runner": rn, "style": "L", "fns": fl, "expr": e}, {"runner": rn, "style": "D", "fns": fl, "expr": e}]})
             else:               # an override in one program must not leak into the next ones
-                shadow = [{"key": "size", "ckind": rng.choice(CKINDS[:-1]), "beh": ["sum", 77], "pyname": "size"},
+                st1 = rng.choice("LD")
+                shadow = [{"key": "size", "ckind": rng.choice(NAMED_KINDS[:-1] if st1 == "L" else CKINDS[:-1]), "beh": ["sum", 77], "pyname": "size"},
                           {"key": "contains", "ckind": rng.choice(["nested", "lambda", "mod"]), "beh": ["const", ["b", False]], "pyname": "contains"}]
                 probe = ["add", ["call", "size", [L(1, 2)]], ["cond", ["meth", "contains", L(1, 2), [I(2)]], I(10), I(20)]]
                 for r1, r2 in itertools.product("IC", "IC"):
-                    cases.append({"kind": "history", "rel": None, "progs": [
-                        {"runner": r1, "style": rng.choice("LD"), "fns": shadow + fns, "expr": probe},
+                    cases.append({"kind": "history", "rel": None, "share_env": rng.random() < 0.6, "progs": [
+                        {"runner": r1, "style": st1, "fns": shadow + fns, "expr": probe},
                         {"runner": r2, "style": "N", "fns": [], "expr": probe},
                         {"runner": r2, "style": style, "fns": fns, "expr": e},
                         {"runner": r1, "style": "D", "fns": shadow[:1], "expr": probe}]})
@@ -861,7 +874,7 @@ class C14(Prop):
         return cases
 
     # ---- implementation ----------------------------------------------------------------------------
-    def run_prog(self, p) -> str:
+    def run_prog(self, p, envs: Optional[Dict[str, Any]] = None) -> str:
         import celpy
         from celpy.evaluation import CELEvalError
         from .. import celrun
@@ -874,12 +887,16 @@ class C14(Prop):
                 functions = [o for _, o in fobjs]
             else:
                 functions = {s["key"]: o for s, o in fobjs}
-            env = celpy.Environment(runner_class=celrun.RUNNERS[p["runner"]])
+            if envs is not None:          # one Environment per runner class, shared by the programs of the history
+                env = envs.get(p["runner"]) or envs.setdefault(p["runner"], celpy.Environment(runner_class=celrun.RUNNERS[p["runner"]]))
+            else:
+                env = celpy.Environment(runner_class=celrun.RUNNERS[p["runner"]])
             ast = env.compile(to_cel(p["expr"]))
             prog = env.program(ast, functions=functions)
             REC.clear()
             try:
-                v = prog.evaluate({})
+                # with bindings the runners work on a *clone* of the activation (Activation.clone copies the function chain)
+                v = prog.evaluate({"zz": celpy.celtypes.IntType(1)} if p.get("bind") else {})
                 val = celrun.canon(v)
             except CELEvalError:
                 val = "err"
@@ -894,7 +911,8 @@ class C14(Prop):
         return f"{val} | {log}"
 
     def impl(self, c):
-        return " ## ".join(self.run_prog(p) for p in c["progs"])
+        envs = {} if c.get("share_env") else None
+        return " ## ".join(self.run_prog(p, envs) for p in c["progs"])
 
     # ---- model -------------------------------------------------------------------------------------
     def model_line(self, c):
